@@ -187,6 +187,12 @@ Proof.
   rewrite wrap64_add_l. f_equal. f_equal. lia.
 Qed.
 
+(* the regenerated arithmetic of cdata_sub, as it reads now: signed remainder test, signed division *)
+Lemma sub_arith_now d s :
+  sub_arith gen_sub_prog d s =
+  if 1 <? s then if negb (cmod d s =? 0) then Err ValueError else Ok (cdiv d s) else Ok d.
+Proof. reflexivity. Qed.
+
 (* (p+i)-p = i whenever i*size fits a Py_ssize_t *)
 Theorem add_then_sub : forall addr isz i q,
   ssize_ok i = true -> 1 <= isz -> - 2 ^ 63 <= i * isz < 2 ^ 63 ->
@@ -195,7 +201,7 @@ Theorem add_then_sub : forall addr isz i q,
 Proof.
   intros addr isz i q Hi Hs Hp Hq.
   rewrite add_pointer in Hq by (cbn; lia || assumption). inversion Hq; subst q; clear Hq.
-  unfold ptr_sub. cbn [c_isz c_voidp c_data ptr].
+  unfold ptr_sub. cbn [c_isz c_voidp c_data ptr c_kind]. rewrite sub_arith_now.
   destruct (Z.leb_spec isz 0); [lia|]. cbn [andb].
   assert (to_ssize (wrap64 (addr + i * isz) - addr) = i * isz) as ->.
   { unfold wrap64. pose proof (Z.div_mod (addr + i * isz) (2 ^ 64) ltac:(lia)) as D.
